@@ -95,7 +95,7 @@ func RunCLIHook(p *Program, spec world.Spec, hook func(w *world.World, op *world
 	res.Stdout = w.Stdout
 	res.Stderr = w.Stderr
 	res.Log = w.Log
-	res.Fired = w.Fired
+	res.Fired = w.FiredOps()
 	res.Final = w.Snapshot()
 	return res
 }
